@@ -1,7 +1,7 @@
 (* C16 — WASI file operations behave like a POSIX-style reference model.
    Only statements, `exact <lemma>` and Print Assumptions live here. *)
 From Verif Require Import Lib.GoInt Gen.GenC16Wasip1 Sys.DescTable Proofs.DescTableP Sys.Dirent Proofs.DirentP
-  Sys.FsModel Proofs.FsModelP.
+  Sys.FsModel Proofs.FsModelP Sys.FsSlash Proofs.FsSlashP Sys.FsNorm Proofs.FsNormP.
 Open Scope Z_scope.
 
 (* ---- A. descriptor table (internal/descriptor/table.go) ----
@@ -185,3 +185,125 @@ Proof.
         (conj rename_visible (fun ops => reachable_wf ops st_init wf_init)))))).
 Qed.
 Print Assumptions C16_dir_visibility.
+
+(* ---- C'. path arguments ending in '/', and paths relative to a directory descriptor (Sys/FsSlash.v) ----
+   [step_sl s o t1 t2] is the call [o] whose first / second path argument ends in '/' iff t1 / t2.
+   It is what the fs stream compares the real host functions with. *)
+
+(* A trailing slash never adds behaviour: the call either behaves exactly like the call without the slash,
+   or it fails and changes nothing. (Without flags step_sl is step.) *)
+Theorem C16_trailing_slash_refines : forall s o t1 t2,
+  step_sl s o t1 t2 = step s o \/ exists e, step_sl s o t1 t2 = (s, OErr e).
+Proof. exact slash_refines. Qed.
+Print Assumptions C16_trailing_slash_refines.
+
+(* A name with a trailing slash only ever reaches a directory:
+   path_open succeeds only on an existing directory — the new descriptor is a directory descriptor and
+   nothing was created or truncated; path_filestat_get only answers "directory"; path_unlink_file never
+   succeeds; path_create_directory creates a directory where nothing was; path_remove_directory removes a
+   directory; path_rename succeeds only when the source is a directory — or, wazero, as the no-op on two
+   identical names. *)
+Theorem C16_trailing_slash_only_dirs :
+  (forall s d p ofl fdf r t2 s' fd, step_sl s (PathOpen d p ofl fdf r) true t2 = (s', OFd fd) ->
+     exists b, base s d = inr b /\ node_at (s_tree s) (b ++ p) = Some NDir /\
+       s_tree s' = s_tree s /\ s_files s' = s_files s /\ s_next s' = s_next s /\
+       exists e, getfd s' fd = Some e /\ fe_kind e = KDir (b ++ p)) /\
+  (forall s d p t2 s' ft sz, step_sl s (Stat d p) true t2 = (s', OStat ft sz) ->
+     s' = s /\ ft = FILETYPE_DIRECTORY /\ exists b, base s d = inr b /\ node_at (s_tree s) (b ++ p) = Some NDir) /\
+  (forall s d p t2, snd (step_sl s (Unlink d p) true t2) <> OOk) /\
+  (forall s d p t1 t2 s', step_sl s (Mkdir d p) t1 t2 = (s', OOk) ->
+     exists b, base s d = inr b /\ tlookup (s_tree s) (b ++ p) = None /\ tlookup (s_tree s') (b ++ p) = Some NDir) /\
+  (forall s d p t1 t2 s', step_sl s (Rmdir d p) t1 t2 = (s', OOk) ->
+     exists b, base s d = inr b /\ tlookup (s_tree s) (b ++ p) = Some NDir) /\
+  (forall s d p d2 q t1 t2 s', t1 || t2 = true -> step_sl s (Rename d p d2 q) t1 t2 = (s', OOk) ->
+     exists b1 b2, base s d = inr b1 /\ base s d2 = inr b2 /\
+       ((t1 = true /\ t2 = true /\ b1 ++ p = b2 ++ q /\ s' = s) \/ tlookup (s_tree s) (b1 ++ p) = Some NDir)).
+Proof.
+  exact (conj sl_open_only_dir (conj sl_stat_only_dir (conj sl_unlink_never (conj sl_mkdir_dir
+        (conj sl_rmdir_dir sl_rename_only_dir))))).
+Qed.
+Print Assumptions C16_trailing_slash_only_dirs.
+
+(* ... and on a directory (or a missing name) the slash is invisible: "dir/" is "dir". *)
+Theorem C16_trailing_slash_dir_transparent :
+  (forall s d p ofl fdf r t2 b, base s d = inr b ->
+     (forall ino, resolve (s_tree s) (b ++ p) <> RNode (NFile ino)) -> bit ofl O_CREAT = false ->
+     step_sl s (PathOpen d p ofl fdf r) true t2 = step s (PathOpen d p ofl fdf r)) /\
+  (forall s d p t2 b, base s d = inr b -> (forall ino, resolve (s_tree s) (b ++ p) <> RNode (NFile ino)) ->
+     step_sl s (Stat d p) true t2 = step s (Stat d p) /\ step_sl s (Unlink d p) true t2 = step s (Unlink d p)) /\
+  (forall s d p t1 t2, step_sl s (Mkdir d p) t1 t2 = step s (Mkdir d p) /\ step_sl s (Rmdir d p) t1 t2 = step s (Rmdir d p)) /\
+  (forall s d p d2 q t1 t2 b1 b2, base s d = inr b1 -> base s d2 = inr b2 ->
+     resolve (s_tree s) (b1 ++ p) = RNode NDir -> resolve (s_tree s) (b2 ++ q) <> RNoent -> resolve (s_tree s) (b2 ++ q) <> RNotdir ->
+     step_sl s (Rename d p d2 q) t1 t2 = step s (Rename d p d2 q)).
+Proof. exact slash_dir_transparent. Qed.
+Print Assumptions C16_trailing_slash_dir_transparent.
+
+(* Descriptor-relative resolution is prefixing, nothing else. In every state, a path operation through a
+   directory descriptor whose entry is [KDir name] gives the same result and the same next state as the
+   same operation through the pre-open with [name ++ p], with the same trailing-slash flags.
+   [via_op s d0 o] rewrites every path argument of [o] that way (both arguments of a rename, independently). *)
+Theorem C16_dirfd_relative :
+  (forall s d0 e0 o t1 t2, getfd s d0 = Some e0 -> fe_kind e0 = KPre ->
+     step_sl s (via_op s d0 o) t1 t2 = step_sl s o t1 t2) /\
+  (forall s d0 e0 d e name, getfd s d0 = Some e0 -> fe_kind e0 = KPre -> getfd s d = Some e -> fe_kind e = KDir name ->
+     forall p t1 t2,
+       (forall ofl fdf r, step_sl s (PathOpen d p ofl fdf r) t1 t2 = step_sl s (PathOpen d0 (name ++ p) ofl fdf r) t1 t2) /\
+       step_sl s (Mkdir d p) t1 t2 = step_sl s (Mkdir d0 (name ++ p)) t1 t2 /\
+       step_sl s (Rmdir d p) t1 t2 = step_sl s (Rmdir d0 (name ++ p)) t1 t2 /\
+       step_sl s (Unlink d p) t1 t2 = step_sl s (Unlink d0 (name ++ p)) t1 t2 /\
+       step_sl s (Stat d p) t1 t2 = step_sl s (Stat d0 (name ++ p)) t1 t2 /\
+       (forall q, step_sl s (Rename d p d q) t1 t2 = step_sl s (Rename d0 (name ++ p) d0 (name ++ q)) t1 t2)).
+Proof. exact (conj dirfd_relative dirfd_relative_explicit). Qed.
+Print Assumptions C16_dirfd_relative.
+
+(* Reachable states. Every state reached by [run_sl] is reached by [run] on the sub-sequence of calls that the
+   guard did not reject ([accepted], an explicit filter that follows the run), with the same observations at
+   those positions; so every invariant of the states reachable by [run] (C16_fd_lifecycle,
+   C16_file_content_consistent, C16_dir_visibility) carries over — e.g. the tree stays well formed.
+   Without flags [run_sl] is [run]. *)
+Theorem C16_trailing_slash_reachable :
+  (forall l s, final_sl s l = final s (accepted s l)) /\
+  (forall l s, fst (run_sl s l) = fst (run s (accepted s l)) /\
+               accepted_obs s l (snd (run_sl s l)) = snd (run s (accepted s l))) /\
+  (forall l s, (length (accepted s l) <= length l)%nat) /\
+  (forall ops s, run_sl s (map (fun o => (o, false, false)) ops) = run s ops) /\
+  (forall l, wf_tree (s_tree (final_sl st_init l))).
+Proof.
+  exact (conj reachable_sl (conj run_sl_accepted (conj accepted_sub (conj run_sl_noflags reachable_sl_wf)))).
+Qed.
+Print Assumptions C16_trailing_slash_reachable.
+
+(* ---- C''. path arguments that are not clean: ".", "..", empty components, a leading '/' (Sys/FsNorm.v) ----
+   [norm rooted cs] is atPath's path.Clean + fs.ValidPath on the components of the raw string; [step_n] applies
+   it in front of step_sl and is what the fs stream compares the real host functions with.
+   (1) a clean path is left alone, and a call with a clean raw path is the call of part C' (a path that normalises
+       to the directory of the descriptor itself is handed on as "." and must be a directory: FsNorm.tflag);
+   (2) "." and empty components are invisible and "name/.." cancels, wherever they stand;
+   (3) the path is refused exactly when it is rooted or some prefix has more ".." than names — it can never
+       name anything outside the directory of its descriptor — and then the call fails with EPERM and changes
+       nothing, whatever the descriptor is;
+   (4) the normalisation is lexical (wazero; it never consults the file system), POSIX resolves one component
+       at a time: whenever the POSIX walk [pwalk] below a directory succeeds, [norm] names the same node; the
+       converse fails (Examples ex_posix_vs_lexical in Proofs/FsNormP.v: "missing/../a", "file/.");
+   (5) every call either is one FsModel operation or fails and changes nothing; the states [run_n] reaches are
+       reached by [run] on those operations ([effective_ops]), so the invariants of part C carry over. *)
+Theorem C16_path_normalisation :
+  (forall p, norm false (map CName p) = Some p) /\
+  (forall s k d p t, p <> [] -> step_n s (NRaw k d false (map CName p) t) = step_sl s (mk1 k d p) t false) /\
+  (forall s d1 p t1 d2 q t2,
+     step_n s (NRename d1 false (map CName p) t1 d2 false (map CName q) t2) = step_sl s (Rename d1 p d2 q) t1 t2) /\
+  (forall stack a b, clean stack (a ++ CDot :: b) = clean stack (a ++ b) /\ clean stack (a ++ CEmpty :: b) = clean stack (a ++ b)) /\
+  (forall stack a n b, clean stack (a ++ CName n :: CDotDot :: b) = clean stack (a ++ b)) /\
+  (forall rooted cs, norm rooted cs = None <->
+     rooted = true \/ exists k, (k <= length cs)%nat /\ (nnames (firstn k cs) < ndotdot (firstn k cs))%nat) /\
+  (forall s k d rooted cs t, norm rooted cs = None -> step_n s (NRaw k d rooted cs t) = (s, OErr ErrnoPerm)) /\
+  (forall t b cs st', pwalk t b [] cs = Some st' -> norm false cs = Some (rev st')) /\
+  (forall s x, (exists o, effective s x = Some o /\ step_n s x = step s o) \/
+               (effective s x = None /\ exists e, step_n s x = (s, OErr e))) /\
+  (forall l s, final_n s l = final s (effective_ops s l)) /\
+  (forall l, wf_tree (s_tree (final_n st_init l))).
+Proof.
+  exact (conj norm_clean (conj step_n_clean (conj step_n_rename_clean (conj clean_dot (conj clean_dotdot
+        (conj norm_none (conj step_n_escape (conj pwalk_clean (conj step_n_refines (conj reachable_n reachable_n_wf)))))))))).
+Qed.
+Print Assumptions C16_path_normalisation.
